@@ -521,6 +521,28 @@ def run_check(prop: str, tier: str) -> int:
                     for r in reps:
                         print("  DEBUG-REPLAY", v["name"], json.dumps(r.get("native")), json.dumps(r.get("inputs"))[:600])
 
+    # thorough tier: independently of any failing obligation, the bounded native search of the property is run for every
+    # function under contract -- a cross-check of specification, engine and code against each other (a hit is a natively
+    # failing input, i.e. a violation however the proofs went)
+    if tier == "thorough":
+        seen_fn = set()
+        for f_ in funcs:
+            if f_["file"].startswith("<"):
+                continue
+            fn_name = f"{f_['file']}:{f_['qualname'].split('@')[0]}"
+            if prop in ("C01", "C09", "C13", "C14", "C15", "C16", "C17"):
+                fn_name = f"(all functions of {prop}: the zoo of this property does not depend on the function)"
+            if fn_name in seen_fn or fn_name in [s_["function"] for s_ in searches]:
+                continue
+            seen_fn.add(fn_name)
+            hit = native_search({"oracle": prop, "function": fn_name, "meta": {}, "active_regions": active_regions})
+            searches.append({"function": fn_name, "found": hit.get("found"), "cases": hit.get("cases"), "tier": "thorough"})
+            if hit.get("found"):
+                spec = {"property": prop, "oracle": prop, "obligation": f"thorough native search for {fn_name}", "function": fn_name,
+                        "inputs": hit["inputs"], "meta": hit.get("meta", {}),
+                        "native": {"reproduced": True, "detail": hit.get("detail", "")}, "found_by": "thorough-tier native search"}
+                violations.append((f"{fn_name}:native-search", write_replay(prop, spec), True))
+
     # bounded complement: the property's native oracle over an enumerated zoo, for the functions the property depends
     # on that are not under contract yet -- a labelled bounded stand-in, never counted among the obligations
     complement = None
